@@ -9,6 +9,7 @@ R2 consumer agreement, R3 kind maps and required-ness, R4 overload / setter / de
 from __future__ import annotations
 
 import ast
+from pathlib import PurePosixPath
 import inspect
 import itertools
 
@@ -199,6 +200,9 @@ DEFS = {
     "untyped property with a typed setter": "@property\ndef {n}(self): ...\n@{n}.setter\ndef {n}(self, value: int) -> None: ...",
     "typed property with a differently typed setter": "@property\ndef {n}(self) -> str: ...\n@{n}.setter\ndef {n}(self, value: int) -> None: ...",
     "function with a lambda default": "def {n}(self, enc=lambda s, encoding='utf-8', errors='strict': s): ...",
+    "function with a keyword-only lambda default": "def {n}(self, key=lambda *, k=1: k): ...",
+    "function with a positional-only then keyword-only lambda default": "def {n}(self, key=lambda a, /, *, k: a): ...",
+    "function with a nested-call default": "def {n}(self, retry=dict(policy=dict(base=2), **dict(strict=True))): ...",
     "overloads without implementation": "@typing.overload\ndef {n}(x: int) -> int: ...\n@typing.overload\ndef {n}(x: str, y: int) -> str: ...",
 }
 
@@ -224,7 +228,8 @@ def _definition_table(prog: Program, ctx: Ctx) -> None:
     def visit(srcs: list[str]) -> dict | str:
         klass = Obj(prog.cls(f"{M}.Class"), {"name": "K", "path": "m.K", "members": {}, "parent": None, "overloads": collections.defaultdict(list),
                                              "imports_future_annotations": False}, label="m.K")
-        mod = Obj(prog.cls(f"{M}.Module"), {"name": "m", "path": "m", "members": {"K": klass}, "parent": None, "imports_future_annotations": False}, label="m")
+        mod = Obj(prog.cls(f"{M}.Module"), {"name": "m", "path": "m", "members": {"K": klass}, "parent": None, "imports_future_annotations": False,
+                                                "_filepath": PurePosixPath("/s/m.py"), "relative_filepath": PurePosixPath("m.py")}, label="m")
         mod.attrs["module"] = mod
         klass.attrs["module"] = mod
         klass.attrs["parent"] = mod
@@ -303,7 +308,7 @@ def _definition_table(prog: Program, ctx: Ctx) -> None:
             detail += f"; annotations/defaults {got['x']['annotations']} -> {got['x']['returns']}, source {want_ann} -> {sig.return_annotation}"
         if ok and "async" in dname:
             ok = "async" in got["x"]["labels"]
-        if ok and dname == "function with a lambda default":
+        if ok and dname.startswith("function with a ") and dname.endswith(" default"):
             src_default = ast.parse(tmpl.format(n="x")).body[0].args.defaults[0]
             got_default = got["x"]["annotations"][1][2]
             try:
